@@ -85,6 +85,12 @@ def run(prog, rep, tier):
             it["rule"] = "R12.3"
             rep.items.append(it)
             rep.counts["R12.3"] = rep.counts.get("R12.3", 0) + 1
+    # "over the resolved names": a data column named in the call must be in the frame the call is evaluated on, i.e. found by
+    # the used-variables extractor (C09's R9.4), reported here as R12.7
+    from . import C09
+    from ..core import reuse_rule
+    reuse_rule(rep, C09.r9_4, "R12.7", prog)
+    rep.floor("R12.7", 12)
     rep.floor("R12.1", 20)
     rep.floor("R12.2", 30)
     rep.floor("R12.3", 6)
